@@ -101,11 +101,13 @@ Predict(mode) ==
                                mk |-> [k \in Tasks |-> IF cfg.method = "timestamp" /\ "TsNewerOnly" \in KF
                                                         THEN [present |-> TRUE, m |-> clock] ELSE mk[k]]])
          ELSE out(<<>>, 0, keep)
-    [] mode = "force" ->
-         LET b == Body(mode) st == Invalidate(task, keep) IN
+    [] mode = "force" ->   \* forced: the verdict of the up-to-date check is ignored, what it records is not
+         LET c == Check(task, TRUE) st0 == [ck |-> c.ck, mk |-> c.mk]
+             b == Body(mode) st == Invalidate(task, st0) IN
          out(b.ran, b.exit, AfterSuccess(task, st))
     [] mode = "forcefail1" ->   \* a forced run whose first checked command fails: whatever was recorded is forgotten
-         LET st == Invalidate(task, keep) IN
+         LET c == Check(task, TRUE) st0 == [ck |-> c.ck, mk |-> c.mk]
+             st == Invalidate(task, st0) IN
          out(<<1>>, 201, AfterFailure(task, st))
     [] OTHER ->  \* run, other, fail*, kill*, prompt
          LET c == UpToDate(task, TRUE) st0 == [ck |-> c.ck, mk |-> c.mk] IN
